@@ -3,11 +3,14 @@ violation key (class, site) observed, or None.  A candidate is kept only if the 
 persists.  Budgeted by number of re-executions."""
 
 
-def shrink(spec, choices, key, test, spec_shrinkers=(), budget=300):
+def shrink(spec, choices, key, test, spec_shrinkers=(), budget=300, wall_s=150.0):
+    import time as _t
     runs = [0]
+    t_end = _t.perf_counter() + wall_s  # (real clock: this is harness code outside any simulation)
 
     def ok(s, c):
-        if runs[0] >= budget:
+        if runs[0] >= budget or _t.perf_counter() > t_end:
+            runs[0] = max(runs[0], budget)
             return False
         runs[0] += 1
         try:
